@@ -50,7 +50,7 @@ pub struct View {
     /// Print precision.
     ///
     /// This is only used for printing SFS to plain text format, and will be ignored otherwise.
-    #[clap(long, default_value_t = 6, value_name = "INT")]
+    #[clap(long, default_value_t = 6, value_name = "INT", value_parser = crate::parse_precision)]
     pub precision: usize,
 }
 
